@@ -173,6 +173,38 @@ def gen(prop, stream, tier, avoid):
             if rng.chance(0.2):
                 dens = [1] * nd
             ops.append({"op": "refine", "obj": o, "density": dens})
+    if nobj >= 2 and kn.chance(0.2) and not objs[0].get("share_dirs") and objs[1].get("share_kv_with") is None \
+            and not any(sp.get("share_kv_with") == 1 for sp in objs):
+        # motif: a second object that looks like the first one to anything keyed on sizes, degrees and positions (same kind, degrees,
+        # control net sizes - hence knot vector lengths - and the same insertion parameter and count) but has other knot values
+        a = objs[0]
+        b = shapes.gen_shape(rng, kind=a["kind"], degrees=list(a["degrees"]), sizes=list(a["sizes"]), dim=a["dim"], rational=a["rational"])
+        b["delta"] = a["delta"]
+        if a.get("aL"):
+            b["aL"] = [list(x) for x in a["aL"]]
+            b["knots"] = [shapes.affine_knots(kv, al[0], al[1]) for kv, al in zip(b["knots"], b["aL"])]
+        d_ = kn.randrange(shapes.DIRS[a["kind"]])
+        if kn.chance(0.6):
+            # ... or even the same knot vectors except for ONE interior knot value in that direction (same spans almost everywhere)
+            kv_a = list(a["knots"][d_])
+            pd_ = a["degrees"][d_]
+            inner = sorted(set(kv_a[pd_ + 1:len(kv_a) - pd_ - 1]))
+            if inner:
+                v_ = kn.pick(inner)
+                allv = sorted(set(kv_a))
+                nxt = allv[allv.index(v_) + 1]
+                nv_ = (v_ + nxt) / 2.0
+                b["knots"] = [list(kv) for kv in a["knots"]]
+                b["knots"][d_] = [nv_ if x == v_ else x for x in kv_a]
+        objs[1] = b
+        at_ = ["new", kn.randint(1, 127)]
+        r_ = kn.pick([1, 1, 2])
+        motif = [{"op": "insert", "obj": 0, "via": kn.pick(["method", "operations"]), "dirs": {str(d_): {"at": at_, "num": r_}}},
+                 {"op": "insert", "obj": 1, "via": kn.pick(["method", "operations"]), "dirs": {str(d_): {"at": at_, "num": r_}}}]
+        if prop == "C06":
+            motif += [{"op": "remove", "obj": 0, "via": kn.pick(["method", "operations"]), "dirs": {str(d_): {"which": 0, "num": r_}}},
+                      {"op": "remove", "obj": 1, "via": kn.pick(["method", "operations"]), "dirs": {str(d_): {"which": 0, "num": r_}}}]
+        ops = motif + ops
     return {"knobs": knobs, "objects": objs, "ops": ops}
 
 
